@@ -227,22 +227,23 @@ mutant("C17", "subtraction-in-place", "src/darsia/image/image.py",
 
 # ------------------------------------------------------------------ C18
 mutant("C18", "save-drops-name", "src/darsia/image/image.py",
-       """            metadata=self.metadata(),
-            kind=type(self).__name__,
-""", """            metadata={k: v for k, v in self.metadata().items() if k != "name"},
-            kind=type(self).__name__,
+       """            pickle.dumps(self.metadata(), protocol=pickle.HIGHEST_PROTOCOL),
+""", """            pickle.dumps(
+                {k: v for k, v in self.metadata().items() if k != "name"},
+                protocol=pickle.HIGHEST_PROTOCOL,
+            ),
 """, "image name not stored")
 mutant("C18", "npz-read-casts-to-float", "src/darsia/image/imread.py",
        """    array = npzdata["array"]
-    metadata = npzdata["metadata"].item()
+    metadata = npzdata["metadata"]
 """, """    array = npzdata["array"].astype(float)
-    metadata = npzdata["metadata"].item()
+    metadata = npzdata["metadata"]
 """, "reloaded array always float64")
 mutant("C18", "save-swallows-oserror", "src/darsia/image/image.py",
        """        np.savez(
             str(Path(path)),
             array=self.img,
-            metadata=self.metadata(),
+            metadata=metadata,
             kind=type(self).__name__,
             original_dtype=str(np.dtype(self.original_dtype)),
         )
@@ -250,7 +251,7 @@ mutant("C18", "save-swallows-oserror", "src/darsia/image/image.py",
             np.savez(
                 str(Path(path)),
                 array=self.img,
-                metadata=self.metadata(),
+                metadata=metadata,
                 kind=type(self).__name__,
                 original_dtype=str(np.dtype(self.original_dtype)),
             )
